@@ -181,7 +181,7 @@ func init() {
 		ToAny:   func(v Val) any { return v.S },
 		MergeFn: func(old, d Val) Val { return Val{S: old.S + d.S} },
 		Less:    func(a, b Val) bool { return a.S < b.S },
-	}, sv("a", "", "b", Big64K), sv("x", ""))
+	}, sv("a", Big64K[:65000], "", "b"), sv("x", ""))
 
 	e1, e2 := CollidingEnumStrings()
 	add(&KindDesc{
@@ -229,7 +229,7 @@ func init() {
 		},
 		ToAny:   func(v Val) any { return &Rec{B: []byte(v.S)} },
 		MergeFn: func(old, d Val) Val { return Val{S: old.S + d.S} },
-	}, sv("r", "", "\x00\xff", Big64K[:65535]), sv("z", ""))
+	}, sv("r", Big64K[:65000], "", "\x00\xff"), sv("z", ""))
 
 	add(&KindDesc{
 		Name: "key", Textual: true, IsKey: true,
